@@ -33,6 +33,8 @@ fn plan(tier: Tier) -> Vec<Unit> {
     match tier {
         Tier::Quick => {
             let mut v = crate::util::split_budget_param("integers", (2 * n + 1) as u64, 4, n);
+            v.extend(crate::util::split_budget_param("tiny", 130, 5, n));
+            v.extend(crate::util::split_budget_param("spots", 40, 2, n));
             v.extend(crate::util::split_budget_param("random", 1_600, 25, n));
             v.extend(crate::util::split_budget_param("pairs", 300, 20, n));
             v
@@ -41,6 +43,7 @@ fn plan(tier: Tier) -> Vec<Unit> {
             // cost grows with |x| (about 0.3 s per call near |x| = 1000) and with the digit count of x:
             // every integer to +-1000, 12 000 seeded arguments of which one in five goes beyond |x| = 120
             let mut v = crate::util::split_budget_param("integers", (2 * n + 1) as u64, 2, n);
+            v.extend(crate::util::split_budget_param("tiny", 130, 5, n));
             v.extend(crate::util::split_budget_param("random", 9_600, 20, 120));
             v.extend(crate::util::split_budget_param("random", 2_400, 8, n));
             v.extend(crate::util::split_budget_param("pairs", 1_200, 10, n));
@@ -134,6 +137,32 @@ fn run_unit(unit: &Unit, r: &mut Rng, ctx: &mut Ctx) {
             }
             if unit.start == 0 {
                 ctx.exhaustive_notes.push(format!("C13: every integer argument in -{}..{}", n, n));
+            }
+        }
+        "tiny" => {
+            // |x| = m * 10^-k for every k in 1..130 and a few mantissas, both signs: arguments whose series has one to a
+            // handful of terms, around every "how many digits are enough" boundary (precision/3, /2, precision, ...)
+            for idx in unit.start..unit.start + unit.count {
+                let k = idx as i64 + 1;
+                for m in [1i64, 5, 9, 65, 85, 99, 333, 7001] {
+                    for sgn in [1i64, -1] {
+                        let case = Case::new("exp").push(Dec::new(BigInt::from(sgn * m), k).tok());
+                        check_case(&case, ctx);
+                    }
+                }
+            }
+            if unit.start == 0 {
+                ctx.exhaustive_notes.push("C13: m * 10^-k for every k in 1..130, m in {1,5,9,65,85,99,333,7001}, both signs".into());
+            }
+        }
+        "spots" => {
+            // a few arguments beyond the quick tier's sweep (the thorough tier covers every integer to +-1000)
+            for idx in unit.start..unit.start + unit.count {
+                let v = 121 + idx as i64 * 22 + (idx as i64 % 3);
+                for sgn in [1i64, -1] {
+                    let case = Case::new("exp").push(Dec::new(BigInt::from(sgn * v), 0).tok());
+                    check_case(&case, ctx);
+                }
             }
         }
         "random" => {
